@@ -31,11 +31,24 @@ def knobs(rng):
     )
 
 
+_W = {}
+
+
+def weights():
+    from ..gen_sched import all_op_names
+
+    if not _W:
+        heavy = {"autolift_alloc", "unroll_buffer", "mult_dim", "rearrange_dim", "divide_dim", "expand_dim", "resize_dim", "stage_mem", "lift_alloc", "sink_alloc", "reuse_buffer", "delete_buffer", "inline_window", "bind_expr", "inline", "replace", "extract_subproc", "std.unroll_buffers", "std.auto_stage_mem", "divide_loop", "cut_loop", "unroll_loop", "reorder_stmts", "lift_scope", "fuse"}
+        for n in all_op_names():
+            _W[n] = 3.0 if n in heavy else 1.0
+    return _W
+
+
 def plan(tier, seed):
     quick = tier == "quick"
     return {
         "nshards": 16,
-        "params": {"soft_s": 300 if quick else 1200, "nprograms": 5 if quick else 60, "script_len": 10 if quick else 20, "fault_every": 6 if quick else 3, "fault_points": 3 if quick else 12},
+        "params": {"soft_s": 300 if quick else 1200, "nprograms": 14 if quick else 120, "script_len": 10 if quick else 20, "fault_every": 12 if quick else 4, "fault_points": 3 if quick else 12},
         "hard_timeout_s": 700 if quick else 3400,
     }
 
@@ -43,14 +56,14 @@ def plan(tier, seed):
 def shard(ctx):
     from ..templates import any_template
 
-    prof = StreamProfile(knobs_fn=knobs, script_len=ctx.params["script_len"], templates=any_template)
-    prof.template_prob = 0.4
+    prof = StreamProfile(knobs_fn=knobs, script_len=ctx.params["script_len"], templates=any_template, op_weights=weights())
+    prof.template_prob = 0.5
     run_stream(ctx, prof, [PurityMonitor(ctx, fault_every=ctx.params["fault_every"], fault_points=ctx.params["fault_points"])])
 
 
 def finish(agg, tier):
     cov, inc = per_op_coverage(agg, 15 if tier == "quick" else 40)
-    for k in ("purity.fingerprints", "purity.cursor_checks", "purity.str_checks", "purity.after_accepted", "purity.after_rejected", "purity.reruns", "fault.injections", "fault.surfaced", "fault.swallowed", "fault.count_runs"):
+    for k in ("purity.fingerprints", "purity.cursor_checks", "purity.str_checks", "purity.after_accepted", "purity.after_rejected", "purity.reruns", "purity.forward_queries", "fault.injections", "fault.surfaced", "fault.swallowed", "fault.count_runs"):
         cov[k.replace(".", "_")] = agg.stats.get(k, 0)
     if agg.stats.get("fault.injections", 0) < 100:
         inc.append("fewer than 100 injected faults")
